@@ -49,10 +49,13 @@ Unify(a) ==
     THEN CanAllocate(ptr) /\ ptr' = [ptr EXCEPT ![a] = FreshId(ptr)]
     ELSE UNCHANGED ptr
 
+\* *a = *b: the managed OBJECT is assigned (ReferenceCounter::operator= must leave both reference counts alone); no handle changes
+AssignObject(a, b) == ptr[a] # Null /\ ptr[b] # Null /\ Converts(a, b) /\ UNCHANGED ptr
+
 Next ==
     \E a \in Handles :
        \/ New(a) \/ Reset(a) \/ Unify(a)
-       \/ \E b \in Handles : CopyAssign(a, b) \/ MoveAssign(a, b) \/ CopyConstruct(a, b) \/ MoveConstruct(a, b) \/ Swap(a, b)
+       \/ \E b \in Handles : AssignObject(a, b) \/ CopyAssign(a, b) \/ MoveAssign(a, b) \/ CopyConstruct(a, b) \/ MoveConstruct(a, b) \/ Swap(a, b)
 
 Spec == Init /\ [][Next]_ptr
 
